@@ -698,18 +698,6 @@ DoubleSupport::isValid(const XalanDOMChar*      theString)
 
 
 
-inline double
-modfRound(double  theValue)
-{
-    double          intPart = 0;
-
-        std::modf(theValue + 0.5, &intPart);
-
-    return intPart;
-}
-
-
-
 double
 DoubleSupport::round(double     theValue)
 {
@@ -727,44 +715,23 @@ DoubleSupport::round(double     theValue)
     }
     else if (theValue == 0)
     {
-        return 0.0;
-    }
-    else if (theValue > 0)
-    {
-        // If the value is less than the maximum value for
-        // a long, this is the fastest way to do it.
-        if (theValue < LONG_MAX)
-        {
-            return long(theValue + 0.5);
-        }
-        else
-        {
-            return modfRound(theValue);
-        }
+        // Positive and negative zero round to themselves.
+        return theValue;
     }
     else
     {
-        // Negative numbers are a special case.  Any time we
-        // have -0.5 as the fractional part, we have to
-        // round up (toward 0), rather than down.
-        double          intPart = 0;
+        // Round to the closest integer, and to the larger one
+        // if there are two.  The difference below is in [0, 1],
+        // and it is exact whenever it is close to 0.5, so there
+        // is no double rounding as there is in theValue + 0.5.
+        const double    theFloor = std::floor(theValue);
 
-        const double    fracPart = 
-            std::modf(theValue, &intPart);
+        const double    theResult =
+            theValue - theFloor >= 0.5 ? theFloor + 1.0 : theFloor;
 
-        const double    theAdjustedValue =
-            fracPart == -0.5 ? theValue + 0.5 : theValue - 0.5;
-
-        // If the value is greater than the minimum value for
-        // a long, this is the fastest way to do it.
-        if (theAdjustedValue > LONG_MIN)
-        {
-            return long(theAdjustedValue);
-        }
-        else
-        {
-            return modfRound(theAdjustedValue);
-        }
+        // Values less than zero, but greater than or equal
+        // to -0.5 round to negative zero.
+        return theResult == 0 && theValue < 0 ? s_negativeZero.d : theResult;
     }
 }
 
